@@ -622,6 +622,11 @@ func (p *Parser) parseInfixExpression(left ast.Expression) ast.Expression {
 
 // parsePostfixExpression parses a postfix-based expression.
 func (p *Parser) parsePostfixExpression() ast.Expression {
+	if p.prevToken.Type != token.IDENT {
+		msg := fmt.Sprintf("the operator %s must follow the name of a variable, around %s", p.curToken.Literal, p.curToken.Position())
+		p.errors = append(p.errors, msg)
+		return nil
+	}
 	expression := &ast.PostfixExpression{
 		Token:    p.prevToken,
 		Operator: p.curToken.Literal,
